@@ -22,7 +22,7 @@ def configs(tier):
         add(spec('localp', 'localp', 2, 1, 1, order=1), 4); add(spec('global', 'gauss-legendre', 2, 1, 2), 1); add(spec('localp', 'localp', 2, 0, 2, order=1), 0); add(spec('global', 'leja', 2, 1, 2), 5); add(spec('global', 'gauss-jacobi', 2, 1, 2, alpha=0.5, beta=1.5), 1); add(spec('global', 'gauss-hermite', 1, 1, 3, alpha=2.0), 1); add(spec('global', 'gauss-gegenbauer', 2, 2, 1, alpha=1.5), 2)
         add(spec('localp', 'semi-localp', 2, 1, 2, order=2), 1, 0); add(spec('sequence', 'leja', 2, 1, 2), 3, 0)
         for r in ('localp-boundary', 'localp-zero', 'semi-localp'): add(spec('localp', r, 2, 1, 2, order=2 if r == 'semi-localp' else 1), 1)   # every local rule through the binary rule code
-        add(spec('global', 'clenshaw-curtis', 2, 1, 1), 9, 1, 60); add(spec('sequence', 'rleja', 2, 1, 1), 9, 1, 50); add(spec('localp', 'localp', 2, 1, 1, order=1), 9, 1, 50)   # solver-chosen histories before the round trip
+        add(spec('global', 'clenshaw-curtis', 2, 1, 1), 9, 1, 60); add(spec('sequence', 'rleja', 2, 1, 1), 9, 1, 50); add(spec('localp', 'localp', 2, 1, 1, order=1), 9, 1, 50); add(spec('fourier', 'fourier', 2, 1, 1), 9, 1, 40); add(spec('fourier', 'fourier', 2, 1, 1), 2); add(spec('fourier', 'fourier', 2, 1, 1), 8); add(spec('global', 'clenshaw-curtis', 2, 1, 1), 8); add(spec('sequence', 'rleja', 2, 1, 1), 8); add(spec('wavelet', 'wavelet', 1, 1, 1, order=1), 9, 1, 30)   # solver-chosen histories before the round trip
         add(spec('global', 'clenshaw-curtis', 2, 1, 2), 7); add(spec('sequence', 'rleja', 2, 1, 2), 7); add(spec('fourier', 'fourier', 2, 1, 1), 7); add(spec('localp', 'localp', 2, 1, 2, order=1), 7)
     else:
         fams += [spec('localp', r, 2, 2, 2, order=o, transform=(o % 2)) for r in LOCAL_RULES for o in (-1, 0, 1, 2, 3) if not (o == 0 and r != 'localp')]
@@ -33,7 +33,7 @@ def configs(tier):
                    spec('localp', 'semi-localp', 2, 2, 1, order=2), spec('localp', 'localp-boundary', 1, 1, 2, order=1), spec('wavelet', 'wavelet', 1, 1, 1, order=1)):
             add(sp, 9, 1, 343)
         for sp in fams:
-            for h in range(8): add(sp, h)
+            for h in range(9): add(sp, h)
             add(sp, 1, 0); add(sp, 3, 0)
     return cs
 
